@@ -825,7 +825,9 @@ type recSessTrack struct {
 	dt     *diskwriter.VerifTrack
 	num    uint64 // track number in the files
 	writes []*recWrite
-	maxIdx int // newest source packet presented so far (-1: none)
+	// pushOrder: source packets in the order in which they entered the sample builder
+	pushOrder []int
+	maxIdx    int // newest source packet presented so far (-1: none)
 	// judging state
 	used    map[int]bool
 	present map[int]int64 // frame -> timestamp in its file
@@ -1121,6 +1123,24 @@ func (w *recWorld) installProbes() {
 			w.dbg("Write exit  %s pkt %d file %q", st.trk.name(), l[len(l)-1].idx, filepath.Base(dt.VerifConn().VerifFileName()))
 		}
 		w.noteFile(dt.VerifConn())
+	})
+	// the order in which packets really enter the sample builder (writeRTP is
+	// called with the recording's lock held; two writers can enter Write in
+	// another order than they get the lock)
+	r.Probe("diskwriter.(*diskTrack).writeRTP", func(enter bool, args []any) {
+		if !enter || len(args) < 2 {
+			return
+		}
+		dt, _ := args[0].(*diskwriter.VerifTrack)
+		pk, _ := args[1].(*rtp.Packet)
+		st := w.sessTrackOf(dt)
+		if st == nil || st.trk == nil || pk == nil {
+			return
+		}
+		i := int(uint16(pk.SequenceNumber - st.trk.sp.StartSeq))
+		if i < len(st.trk.pkts) {
+			st.pushOrder = append(st.pushOrder, i)
+		}
 	})
 	r.Probe("diskwriter.fetch", func(enter bool, args []any) {
 		if len(args) < 2 {
@@ -1837,6 +1857,19 @@ func (w *recWorld) judgeComplete(s *recSession, tag string) {
 			note(wr.idx, wr)
 			if wr.idx > maxSeen {
 				maxSeen = wr.idx
+			}
+		}
+		if len(st.pushOrder) > 0 {
+			// the true order decides
+			dupNewest = -1
+			hiPushed := -1
+			for _, i := range st.pushOrder {
+				if i == hiPushed && dupNewest < 0 {
+					dupNewest = i
+				}
+				if i > hiPushed {
+					hiPushed = i
+				}
 			}
 		}
 		var u0 int64 = -1
